@@ -20,6 +20,7 @@ import (
 	"bytes"
 	"encoding/binary"
 	"errors"
+	"fmt"
 )
 
 // Read the short sector allocation table
@@ -94,16 +95,47 @@ func (r *ComDoc) writeShortSAT() error {
 // is a regular stream whose first block is pointed to by the root storage
 // dirent.
 func (r *ComDoc) readShortSector(shortSector SecID, buf []byte) (int, error) {
+	if shortSector < 0 {
+		return 0, fmt.Errorf("invalid short sector %d", shortSector)
+	}
+	sectors, err := r.shortStreamSectors()
+	if err != nil {
+		return 0, err
+	}
 	// figure out which big sector holds the short sector
-	bigSectorIndex := int(shortSector) * r.ShortSectorSize / r.SectorSize
-	bigSectorID := r.Files[r.rootStorage].NextSector
-	for i := 0; i < bigSectorIndex; i++ {
-		bigSectorID = r.SAT[bigSectorID]
+	offset := int64(shortSector) * int64(r.ShortSectorSize)
+	bigSectorIndex := offset / int64(r.SectorSize)
+	if bigSectorIndex >= int64(len(sectors)) {
+		return 0, fmt.Errorf("short sector %d is past the end of the short sector stream", shortSector)
 	}
 	// translate to a file position
-	n := r.sectorToOffset(bigSectorID)
-	n += int64(int(shortSector)*r.ShortSectorSize - bigSectorIndex*r.SectorSize)
+	n := r.sectorToOffset(sectors[bigSectorIndex])
+	n += offset - bigSectorIndex*int64(r.SectorSize)
 	return r.File.ReadAt(buf, n)
+}
+
+// Return the list of big sectors that hold the short sector stream. The list
+// is kept so that the chain doesn't need to be followed again for every short
+// sector.
+func (r *ComDoc) shortStreamSectors() ([]SecID, error) {
+	if r.shortStream != nil {
+		return r.shortStream, nil
+	}
+	sectors := []SecID{}
+	sector := r.Files[r.rootStorage].NextSector
+	for sector >= 0 {
+		// a chain with more links than the table that describes it is looping
+		if len(sectors) >= len(r.SAT) {
+			return nil, errors.New("short sector stream has a loop in its sector chain")
+		}
+		sectors = append(sectors, sector)
+		var err error
+		if sector, err = chainNext(r.SAT, sector); err != nil {
+			return nil, err
+		}
+	}
+	r.shortStream = sectors
+	return sectors, nil
 }
 
 // Write a short sector at the given position. This will allocate new space in
@@ -128,6 +160,7 @@ func (r *ComDoc) writeShortSector(shortSector SecID, content []byte) error {
 		first := r.makeFreeSectors(1, false)[0]
 		r.SAT[first] = SecIDEndOfChain
 		root.NextSector = first
+		r.shortStream = nil
 	}
 	bigSectorID := root.NextSector
 	for ; bigSectorIndex > 0; bigSectorIndex-- {
@@ -145,6 +178,7 @@ func (r *ComDoc) writeShortSector(shortSector SecID, content []byte) error {
 			bigSectorID = sector
 		}
 		r.SAT[bigSectorID] = SecIDEndOfChain
+		r.shortStream = nil
 	}
 	n := r.sectorToOffset(bigSectorID) + int64(offset)
 	if _, err := r.writer.WriteAt(content, n); err != nil {
